@@ -345,3 +345,29 @@ M("el-setshape-params", EF, "        self.description = newDescription\n        
   ["C16:quadratic"], ["entry_point_matters", "energy_not_finite"], "a description object passed to setShape (also by the typed setters) is not connected to the material parameters")
 M("stop-ge", SC, "            return self._poll(model, model.pData.n) > self._value", "            return self._poll(model, model.pData.n) >= self._value",
   ["C19:stop"], ["stopped_without_condition", "satisfied_without_crossing", "did_not_stop"], "greater-than conditions also accept equality (threshold exactly on a recorded value)")
+M("feh-ref-term", "kawin/thermo/FreeEnergyHessian.py", "                dmudx[B, :] -= ddx[i0 + A, :]", "                dmudx[B, :] -= 0.99 * ddx[i0 + A, :]",
+  ["C10"], ["curvature_vs_finite_difference", "curvature_not_symmetric", "darken_relation"], "reference-element term of the chemical-potential derivative matrix scaled by 0.99")
+
+# ------------------------------------------------------------------ kinds that no mutant or seeded change had ever fired (listing of 2026-10-03)
+M("kwn-clamp-zero", KE, "            Y.composition[0,Y.composition[0] < 0] = self.constraints.minComposition", "            Y.composition[0,Y.composition[0] < 0] = 0",
+  ["C01:clamp+toy_binary"], ["clamp_value"], "a negative balance is clamped to 0 instead of the configured minimum composition ")
+M("kwn-double-nucleation", KE, "            dXdt[p] = self.PBM[p].correctdXdtEuler(dt, growth[p], Y.nucRate[0,p], Y.Rnuc[0,p], x[p])", "            dXdt[p] = self.PBM[p].correctdXdtEuler(dt, growth[p], 1.5*Y.nucRate[0,p], Y.Rnuc[0,p], x[p])",
+  ["C02:toy_binary"], ["density_grows_beyond_nucleation", "density_grows_beyond_nucleation_reported"], "population balance fed with 1.5 times the recorded nucleation rate")
+M("pbm-record-stale", PBM, "            self._recordedPSD[-1][:self.PSD.shape[0]] = self.PSD\n", "            self._recordedPSD[-1][:self.PSD.shape[0]] = 0.999 * self.PSD\n",
+  ["C02:toy_binary"], ["psd_record_density", "psd_record_volume"], "recorded distributions scaled by 0.999")
+M("pbm-record-grid", PBM, "            self._recordedBins[-1][:self.PSDbounds.shape[0]] = self.PSDbounds\n", "            self._recordedBins[-1][:self.PSDbounds.shape[0]] = self.PSDbounds * (1 + 1e-9)\n",
+  ["C02:toy_binary"], ["psd_record_grid"], "recorded class boundaries off by 1e-9 relative")
+M("mob-frame", MOB, "                        mobMatrix[a, b] = (1 - U[a]) * mob[b]", "                        mobMatrix[a, b] = (1 - 0.999*U[a]) * mob[b]",
+  ["C10"], ["volume_fixed_frame", "interdiffusivity_eigenvalues", "darken_relation"], "diagonal of the mobility matrix with 0.999 U: substitutional fluxes no longer sum to zero")
+M("pbm-adjust-flag", PBM, "            self.addSizeClasses(int(self.originalBins/4))\n            change = True", "            self.addSizeClasses(int(self.originalBins/4))\n            change = False",
+  ["C08:history"], ["adjust_change_flag"], "automatic adjustment reports no change after extending the grid")
+M("el-moduli-nu", EF, "        self.unrotated_cMatrix_4th = moduliToC(E, nu, G, lam, K, M)", "        self.unrotated_cMatrix_4th = moduliToC(E, nu if nu is None else 1.001*nu, G, lam, K, M)",
+  ["C16:quadratic+sphere"], ["entry_point_matters", "closed_form"], "setModuli passes a Poisson ratio 0.1 % too large")
+M("kwn-misaligned", PP, "        for name in self.ATTRIBUTES:\n            setattr(self, name, np.concatenate([getattr(self, name), getattr(newData, name)], axis=0))\n        self.n = len(self.time) - 1", "        for name in self.ATTRIBUTES:\n            if name == 'ARavg' and len(self.time) == 7:\n                continue\n            setattr(self, name, np.concatenate([getattr(self, name), getattr(newData, name)], axis=0))\n        self.n = len(self.time) - 1",
+  ["C03:wellformed"], ["misaligned_histories"], "the aspect-ratio history misses the row of step 7")
+M("pbm-diss-range", PBM, "        return np.amax([np.argmax(self.CumulativeMoment(3) > dissFrac), minIndex])", "        return np.amax([np.argmax(self.CumulativeMoment(3) > dissFrac) - 1, minIndex - 1])",
+  ["C07:dtlimit"], ["dissolution_index_range", "dissolution_index_below_min"], "dissolution index shifted down by one (can be -1)")
+M("str-no-prec", STR, "        taumin = np.amin(np.array([tausumweak, tausumstrong, orowan]), axis=0)", "        taumin = np.amin(np.array([tausumweak, tausumstrong, orowan]), axis=0) + 1.0",
+  ["C18:strength"], ["strength_without_precipitates", "not_min_of_branches"], "one pascal added to the combined precipitate strength (non-zero without precipitates)")
+M("gg-psd-negative", GG, "        self.pbm.UpdatePBMEuler(time, x[0])\n        self.pbm.adjustSizeClassesEuler(True)", "        self.pbm.UpdatePBMEuler(time, x[0])\n        self.pbm.PSD[0] = -abs(self.pbm.PSD[1])\n        self.pbm.adjustSizeClassesEuler(True)",
+  ["C18:graingrowth"], ["grain_psd_invalid", "grain_volume_not_conserved", "mean_grain_size_decreases"], "first class of the grain size distribution made negative every step")
